@@ -313,3 +313,35 @@ Example C13_ex_merged_all :
   1 <= 2 /\ cs <> [] /\ input_ok 0 cs /\ clean 2 false (stream cs) = true /\
   confirmed 2 false (stream cs) = true.
 Proof. exact merged_all_ex. Qed.
+
+(* ==================================================================================================
+   Extension 2: the sampling rate is an opaque label (Edges/ProofsX2.v).  The model only compares rates for
+   equality, so the label the harness uses for "no rate" (plain input with fs='auto' / None: Events.fs None)
+   is as good as any number. *)
+From PV Require Import Edges.ProofsX2.
+
+(* renaming all rates (fs argument and chunk annotations) by an injective map renames the fs field of the
+   emitted blocks and changes nothing else - events, spans, number of blocks, error status *)
+Theorem C13_rate_relabel : forall g, injective g -> forall d m init fs cs,
+  run_edges d m init (g fs) (map (relabel g) cs) =
+  (map (set_fs g) (fst (run_edges d m init fs cs)), snd (run_edges d m init fs cs)).
+Proof. exact rate_relabel. Qed.
+Print Assumptions C13_rate_relabel.
+
+(* events / spans (`shape` = a block without its rate) and the status do not depend on the rates at all:
+   any injective renaming of the annotations and ANY two fs arguments give the same blocks up to the fs field *)
+Theorem C13_rate_irrelevant : forall g, injective g -> forall d m init fs1 fs2 cs,
+  map shape (fst (run_edges d m init fs2 (map (relabel g) cs))) = map shape (fst (run_edges d m init fs1 cs)) /\
+  snd (run_edges d m init fs2 (map (relabel g) cs)) = snd (run_edges d m init fs1 cs).
+Proof. exact rate_irrelevant. Qed.
+Print Assumptions C13_rate_irrelevant.
+
+(* injectivity is needed (for the status only): identifying two different rates makes a mixed-rate input acceptable *)
+Theorem C13_rate_relabel_noninjective_refuted :
+  exists g cs, ~ injective g /\
+    snd (run_edges DBoth 1 false 0 (map (relabel g) cs)) <> snd (run_edges DBoth 1 false 0 cs).
+Proof. exact rate_relabel_noninjective_refuted. Qed.
+Print Assumptions C13_rate_relabel_noninjective_refuted.
+
+Example C13_ex_injective : forall f1 f2, injective (fun x => x + (f2 - f1)) /\ (fun x => x + (f2 - f1)) f1 = f2.
+Proof. exact injective_ex. Qed.
